@@ -14,6 +14,7 @@
 #include "icinga/checkable.hpp"
 #include "vdrive.hpp"
 #include "base/utility.hpp"
+#include "base/timer.hpp"
 #include "base/configtype.hpp"
 #include "icinga/host.hpp"
 #include "icinga/service.hpp"
@@ -106,6 +107,16 @@ static std::string FullLine()
 	o << " cms=";
 	if (cs.empty()) o << "-";
 	for (size_t i = 0; i < cs.size(); i++) o << (i ? "," : "") << cs[i];
+	// opt-in observation class "tm": the REAL clean-up timer of every downtime:
+	// tm=<id>:<Timer started>:<floor(due time)>:<downtime object paused>
+	if (ObsOn("tm")) {
+		for (auto& kv : f_DtName) {
+			Downtime::Ptr d = Downtime::GetByName(kv.second);
+			if (!d || !d->IsActive()) continue;
+			Timer::Ptr t = d->m_CleanupTimer;
+			f_Ev.push_back("tm=" + std::to_string(kv.first) + ":" + (t && t->m_Started ? "1" : "0") + ":" + T(t ? t->m_Next : 0) + ":" + (d->IsPaused() ? "1" : "0"));
+		}
+	}
 	std::sort(f_Ev.begin(), f_Ev.end());
 	for (auto& e : f_Ev) {
 		std::string pfx = e.substr(0, e.find('='));
@@ -322,6 +333,16 @@ VOP(dt_remove)
 	Out("dt_remove " + FullLine());
 }
 
+VOP(dt_pause)
+{
+	auto it = f_DtName.find(a.num("id"));
+	if (it != f_DtName.end()) {
+		Downtime::Ptr d = Downtime::GetByName(it->second);
+		if (d) d->SetAuthority(a.num("p") == 0);
+	}
+	Out("dt_pause " + FullLine());
+}
+
 VOP(dt_starttimer)
 {
 	Downtime::DowntimesStartTimerHandler();
@@ -333,8 +354,11 @@ VOP(dt_cleanup)
 	auto it = f_DtName.find(a.num("id"));
 	if (it != f_DtName.end()) {
 		Downtime::Ptr d = Downtime::GetByName(it->second);
-		if (d && d->m_CleanupTimer)
-			d->m_CleanupTimer->OnTimerExpired(d->m_CleanupTimer.get());
+		// the timer pump: fire the clean-up timer only if the real Timer object exists, is started and is due
+		// at the virtual time (what Timer::TimerThreadProc would do with a real clock)
+		Timer::Ptr t = d ? d->m_CleanupTimer : nullptr;
+		if (t && t->m_Started && t->m_Next <= Utility::GetTime())
+			t->OnTimerExpired(t.get());
 	}
 	Out("dt_cleanup " + FullLine());
 }
